@@ -3025,9 +3025,8 @@ Proof.
         destruct (r_uid q =? u_id u) eqn:E; [lia|]. now rewrite andb_false_r. }
       assert (E2 : c_open (u_id u) q = false).
       { destruct (c_open (u_id u) q) eqn:E; [|reflexivity]. apply c_open_pc in E. congruence. }
-      constructor; rewrite ?Hcnt1, ?Hcnt2, ?E1, ?E2; cbn [b2z]; auto; try lia.
-      - intros Hb. eapply abort_coord_step; eauto.
-      - rewrite Z.sub_0_r. exact A5. }
+      constructor; rewrite ?Hcnt1, ?Hcnt2, ?E1, ?E2; cbn [b2z]; rewrite ?Z.sub_0_r; auto; try lia.
+      intros Hb. eapply abort_coord_step; eauto. }
     rewrite Hup in Hu'. destruct (is_pc (r_op q)) eqn:Epc; [|apply Hother; auto].
     apply upd_upload_in' in Hu' as (u & Hu & [[Hne ->]|[Hi ->]]); [apply Hother; auto|].
     destruct (I u Hu) as [A1 A2 A3 A4 A5].
@@ -3039,8 +3038,367 @@ Proof.
     + rewrite Hcnt1, E1, A4. cbn. lia.
     + rewrite Hcnt2. destruct A5 as [A5a A5b].
       assert (E2 : c_open (u_id u) q = s3op_eqb (r_op q) OpComplete).
-      { unfold c_open. rewrite Hend, Hi, Z.eqb_refl. cbn. now rewrite !andb_true_r. }
+      { unfold c_open. rewrite Hend, Hi, Z.eqb_refl. cbn. destruct (s3op_eqb (r_op q) OpComplete); reflexivity. }
       rewrite E2. destruct (s3op_eqb (r_op q) OpComplete); cbn [andb b2z].
       * destruct (r_effect q); lia.
       * lia.
 Qed.
+
+(** ** C08 invariants *)
+Definition progress_inv (s : state) : Prop :=
+  forall t c, find_coord t (coords s) = Some c -> c_progress_after_done c = false.
+
+Lemma progress_inv_step s e s' : d_inv s -> progress_inv s -> step s e = Some s' -> progress_inv s'.
+Proof.
+  intros D I H t c' Hc'. destruct D as [B C _ _ _ _ _ _].
+  destruct (coord_origin _ _ _ _ _ H Hc') as [(c & Hc & Hcs)|(_ & ->)]; [|reflexivity].
+  pose proof (I t c Hc) as Hp.
+  destruct Hcs; cbn; auto.
+  (* on_progress: the actor is in its main, so no announce has begun *)
+  rewrite Hp. cbn [orb].
+  assert (Hns : c_ann_started c = false).
+  { destruct (c_ann_started c) eqn:Est; [exfalso|reflexivity].
+    assert (Hcalm : calm s t) by (apply C; right; right; exists c; auto).
+    match goal with Hx : find_task a (tasks s) = Some ?y, Hk : k_kind ?y <> KSubmission, Hq : k_st ?y = TMain |- _ =>
+      pose proof (Hcalm a y Hx ltac:(assumption) Hk) as Hh; rewrite Hq in Hh end. discriminate. }
+  destruct (bi_t1 _ B) as (_ & _ & IL & _). destruct (IL t c Hc) as [_ _ _ L4 _ L6].
+  destruct (c_cb_runner c) eqn:Ecb; [rewrite L6 in Hns; [discriminate|congruence]|].
+  destruct (c_ran_callbacks c) eqn:Erc; [reflexivity|]. rewrite L4 in Hns; [discriminate|congruence].
+Qed.
+
+(** before the submission task has set the status to running nothing else of the transfer exists *)
+Definition early_inv (s : state) : Prop :=
+  (forall t, (forall k x, find_task k (tasks s) = Some x -> k_t x = t -> k_kind x = KSubmission /\ k_phase x < 2) ->
+     (forall q, In q (reqs s) -> r_t q <> t) /\ (forall u, In u (uploads s) -> u_t u <> t)) /\
+  (forall kS S, find_task kS (tasks s) = Some S -> k_kind S = KSubmission -> k_phase S < 2 ->
+     forall k x, find_task k (tasks s) = Some x -> k_t x = k_t S -> k_kind x = KSubmission).
+
+Lemma early_inv_step s e s' : tb_inv s -> early_inv s -> step s e = Some s' -> early_inv s'.
+Proof.
+  intros [TB U] [I1 I2] H. split.
+  - intros t Hall'.
+    assert (Hall : forall k x, find_task k (tasks s) = Some x -> k_t x = t -> k_kind x = KSubmission /\ k_phase x < 2).
+    { intros k x Hx Ht. destruct (task_persists _ _ _ _ _ H Hx) as (x' & Hx' & Hts). statics Hts.
+      destruct (Hall' k x' Hx' ltac:(congruence)) as [Hk Hp]. pose proof (phase_monotone_step _ _ _ _ Hts).
+      split; [congruence|lia]. }
+    destruct (I1 t Hall) as [Iq Iu]. split.
+    + intros q' Hq'.
+      destruct (req_origin _ _ _ _ H Hq') as [(q & Hq & _ & _ & Ht & _)|(a & r & op & t0 & uid & -> & ->)].
+      * rewrite Ht. auto.
+      * cbn [r_t]. intros ->.
+        destruct (s3begin_inv _ _ _ _ _ _ _ H) as [_ _ _ Htk _ _ Hup].
+        destruct (s3op_eqb op OpAbort) eqn:Eop.
+        -- destruct Hup as (u & Hu & Hut & _); [apply orb_true_r|].
+           apply find_upload_in in Hu. exact (Iu u Hu Hut).
+        -- assert (Hne : op <> OpAbort) by (intros ->; discriminate).
+           destruct (Htk Hne) as (x & Hx & Hxt & _ & _ & Hsub).
+           destruct (Hall a x Hx Hxt) as [Hk Hp]. destruct (Hsub Hk) as [Hp2 _]. lia.
+    + intros u' Hu0.
+      destruct (upload_origin _ _ _ _ H Hu0) as [(u & Hin & _ & Ht)|(r & uid & q & -> & Hq & _ & ->)].
+      * rewrite Ht. auto.
+      * cbn [u_t]. apply Iq. eapply find_req_in; eauto.
+  - intros kS S' HS' HSk HSp k x' Hx' Hxt.
+    destruct (task_origin _ _ _ _ _ H HS') as [(S & HS & HSts)|(HnS & t1 & g1 & a1 & f1 & d1 & kd1 & E1 & ->)].
+    + statics HSts. pose proof (phase_monotone_step _ _ _ _ HSts) as Hmono.
+      destruct (task_origin _ _ _ _ _ H Hx') as [(x & Hx & Hxts)|(_ & t2 & g2 & a2 & f2 & d2 & kd2 & -> & ->)].
+      * statics Hxts. rewrite Skind0. apply (I2 kS S HS ltac:(congruence) ltac:(lia) k x Hx). congruence.
+      * cbn [k_t k_kind fresh_task] in *.
+        destruct (Z.eq_dec kd2 KSubmission) as [Hkk|Hkk]; [exact Hkk|exfalso].
+        destruct (submit_inv _ _ _ _ _ _ _ _ _ H) as [_ _ Hns _ _ _ _ _ _ _ _].
+        destruct (Hns Hkk) as (_ & p & Hp & Hpt & _ & Hph).
+        assert (Hpk : k_kind p = KSubmission) by (apply (I2 kS S HS ltac:(congruence) ltac:(lia) a2 p Hp); congruence).
+        assert (a2 = kS) by (eapply U; eauto; congruence). subst a2.
+        rewrite HS in Hp. injection Hp as <-. specialize (Hph Hpk). lia.
+    + (* the submission task is being submitted: it is the first task of its transfer *)
+      subst e. cbn [k_t k_kind fresh_task] in *. subst kd1.
+      destruct (submit_inv _ _ _ _ _ _ _ _ _ H) as [_ Hsub _ _ _ _ _ _ _ _ _].
+      destruct (Hsub eq_refl) as (_ & _ & _ & Hno).
+      destruct (task_origin _ _ _ _ _ H Hx') as [(x & Hx & Hxts)|(_ & t2 & g2 & a2 & f2 & d2 & kd2 & E2 & ->)].
+      * statics Hxts. exfalso. eapply Hno; [exact Hx|congruence].
+      * injection E2 as -> -> -> -> -> -> ->. reflexivity.
+Qed.
+
+Lemma NoDup_app_left (l1 l2 : list Z) : NoDup (l1 ++ l2) -> NoDup l1.
+Proof.
+  induction l1 as [|y l IH]; [constructor|]. cbn [app]. intros H.
+  inversion H as [|? ? Hni Hnd]; subst. constructor; [|auto].
+  intros Hin. apply Hni. apply in_or_app. now left.
+Qed.
+
+Lemma callback_inv s a t id s' :
+  step s (ECallback a t id) = Some s' ->
+  exists c rest, find_coord t (coords s) = Some c /\ c_cb_runner c = Some a /\ c_callbacks c = id :: rest /\
+                 busy s a = false.
+Proof.
+  intros H. cbn [step] in H. apply busy_false_of_if in H as [Hb H]. sub_on_coord H.
+  rewrite bump_coords in Hfc.
+  destruct (c_cb_runner c) as [b|] eqn:Eb; [|discriminate].
+  destruct (c_callbacks c) as [|h rest] eqn:Ec; [discriminate|].
+  destruct (_ && _) eqn:Eg in Hf; [|discriminate]. apply andb_prop in Eg as [E1 E2].
+  assert (b = a) by lia. assert (h = id) by lia. subst. exists c, rest. auto.
+Qed.
+
+Lemma onqueued_inv s k s' :
+  step s (EOnQueued k) = Some s' ->
+  exists S, find_task k (tasks s) = Some S /\ k_st S = TMain /\ k_kind S = KSubmission /\ k_phase S = 1 /\
+            busy s k = false.
+Proof.
+  intros H. cbn [step] in H. apply busy_false_of_if in H as [Hb H].
+  destruct (find_task k (tasks s)) as [S|]; [|discriminate].
+  destruct (_ && _) eqn:Eg in H; [|discriminate]. split_ands.
+  exists S. repeat split; auto; [now apply tst_eqb_true|unfold KSubmission in *; lia|lia].
+Qed.
+
+Section Reach4.
+Variables w_sub w_req w_io q_sub q_req q_io up down : Z.
+Let s0 := init w_sub w_req w_io q_sub q_req q_io up down.
+
+Lemma early_inv_reachable s : reachable s0 s -> early_inv s.
+Proof.
+  apply (invariant_reachable2 tb_inv).
+  - apply tb_inv_reachable.
+  - split.
+    + intros t _. split; [intros q []|intros u []].
+    + intros kS S HS. discriminate.
+  - intros s1 e s2 TBs. now apply early_inv_step.
+Qed.
+
+(** C08: on_queued callbacks run at phase 1 of the submission task, when
+    nothing else of the transfer exists: no other task, no request, no upload *)
+Theorem on_queued_before_requests s k s' :
+  reachable s0 s -> step s (EOnQueued k) = Some s' ->
+  exists S, find_task k (tasks s) = Some S /\ k_kind S = KSubmission /\ k_phase S = 1 /\ k_st S = TMain /\
+    (forall k' x, find_task k' (tasks s) = Some x -> k_t x = k_t S -> k' = k) /\
+    (forall q, In q (reqs s) -> r_t q <> k_t S) /\
+    (forall u, In u (uploads s) -> u_t u <> k_t S).
+Proof.
+  intros R H. destruct (onqueued_inv _ _ _ H) as (S & HS & Hst & Hk & Hp & _).
+  destruct (early_inv_reachable s R) as [E1 E2]. destruct (tb_inv_reachable _ _ _ _ _ _ _ _ s R) as [_ U].
+  assert (Hall : forall k' x, find_task k' (tasks s) = Some x -> k_t x = k_t S -> k_kind x = KSubmission)
+    by (intros k' x Hx Ht; eapply (E2 k S HS Hk); eauto; lia).
+  assert (Hone : forall k' x, find_task k' (tasks s) = Some x -> k_t x = k_t S -> k' = k)
+    by (intros k' x Hx Ht; eapply U; eauto).
+  exists S. repeat split; auto.
+  - apply (E1 (k_t S)). intros k' x Hx Ht. pose proof (Hone k' x Hx Ht). subst k'.
+    rewrite HS in Hx. injection Hx as <-. split; [exact Hk|lia].
+  - apply (E1 (k_t S)). intros k' x Hx Ht. pose proof (Hone k' x Hx Ht). subst k'.
+    rewrite HS in Hx. injection Hx as <-. split; [exact Hk|lia].
+Qed.
+
+(** the on_queued counter changes only there *)
+Theorem queued_cbs_only_at_onqueued s e s' t c c' :
+  step s e = Some s' -> find_coord t (coords s) = Some c -> find_coord t (coords s') = Some c' ->
+  c_queued_cbs c' = c_queued_cbs c \/
+  (exists k S, e = EOnQueued k /\ find_task k (tasks s) = Some S /\ k_t S = t /\ k_phase S = 1 /\
+               c_queued_cbs c' = c_queued_cbs c + 1).
+Proof.
+  intros H Hc Hc'. destruct (coord_persistsE _ _ _ _ _ H Hc) as (c'' & Hc'' & Hcs).
+  rewrite Hc' in Hc''. injection Hc'' as <-.
+  destruct Hcs; cbn; auto. right. eauto 10.
+Qed.
+
+(** C08: done callbacks run at most once each, and only by the holder of the callbacks lock *)
+Theorem on_done_exactly_once_safety s :
+  reachable s0 s ->
+  (forall t c, find_coord t (coords s) = Some c ->
+     NoDup (c_ran_callbacks c) /\ (forall id, In id (c_ran_callbacks c) -> ~ In id (c_callbacks c))) /\
+  (forall a t id s', step s (ECallback a t id) = Some s' ->
+     exists c, find_coord t (coords s) = Some c /\ c_cb_runner c = Some a /\
+               ann_phase a (c_announcers c) = Some 4 /\ ~ In id (c_ran_callbacks c)).
+Proof.
+  intros R. pose proof (coords_inv_reachable _ _ _ _ _ _ _ _ s R) as CI. split.
+  - intros t c Hc. destruct (CI t c Hc) as [_ Hnd _ _ _ _ _]. split.
+    + eapply NoDup_app_left; eauto.
+    + intros id Hin Hin2. clear -Hnd Hin Hin2.
+      induction (c_ran_callbacks c) as [|y l IH]; [destruct Hin|].
+      cbn [app] in Hnd. inversion Hnd as [|? ? Hni Hnd']; subst.
+      destruct Hin as [->|Hin]; [apply Hni; apply in_or_app; now right|auto].
+  - intros a t id s' H. destruct (callback_inv _ _ _ _ _ H) as (c & rest & Hc & Hrun & Hcb & _).
+    exists c. destruct (CI t c Hc) as [_ Hnd _ Icb _ _ _]. repeat split; auto.
+    + now apply Icb.
+    + intros Hin. rewrite Hcb in Hnd. clear -Hnd Hin.
+      induction (c_ran_callbacks c) as [|y l IH]; [destruct Hin|].
+      cbn [app] in Hnd. inversion Hnd as [|? ? Hni Hnd']; subst.
+      destruct Hin as [->|Hin]; [apply Hni; apply in_or_app; right; now left|auto].
+Qed.
+End Reach4.
+
+Section Reach5.
+Variables w_sub w_req q_sub q_req q_io up down : Z.
+Let s0 := init w_sub w_req 1 q_sub q_req q_io up down.
+
+Lemma d_inv_reachable s : reachable s0 s -> d_inv s.
+Proof.
+  intros R. assert (G : base_inv s /\ d_inv s); [|apply G].
+  revert s R. apply invariant_reachable.
+  - assert (B0 : base_inv s0) by (apply (base_inv_reachable w_sub w_req q_sub q_req q_io up down); apply reachable_refl).
+    split; [exact B0|]. constructor.
+    + exact B0.
+    + intros t [(kf & f & Hf & _)|[(kS & S & HS & _)|(c & Hc & _)]]; discriminate.
+    + intros q [].
+    + constructor.
+    + intros u [].
+    + intros q [].
+    + intros t c Hc. discriminate.
+    + intros t c Hc. discriminate.
+  - intros s1 e s2 [_ D] H. pose proof (d_inv_step _ _ _ D H) as D2. split; [apply D2|exact D2].
+Qed.
+
+Lemma upload_inv_reachable s : reachable s0 s -> upload_inv s.
+Proof.
+  apply (invariant_reachable2 d_inv).
+  - apply d_inv_reachable.
+  - intros u [].
+  - intros s1 e s2 D. now apply upload_inv_step.
+Qed.
+
+Lemma progress_inv_reachable s : reachable s0 s -> progress_inv s.
+Proof.
+  apply (invariant_reachable2 d_inv).
+  - apply d_inv_reachable.
+  - intros t c Hc. discriminate.
+  - intros s1 e s2 D. now apply progress_inv_step.
+Qed.
+
+(** C05: for every multipart upload id the library has received *)
+Theorem abort_discipline s u :
+  reachable s0 s -> In u (uploads s) ->
+  u_begun_after_abort u = false /\          (* no part/complete begins after the abort began *)
+  u_abort_while_inflight u = false /\       (* the abort begins when no other request for the id is in flight *)
+  0 <= u_completes_ok u <= 1 /\             (* completed at most once *)
+  u_inflight u = cnt (pc_open (u_id u)) (reqs s) /\
+  (u_abort_begun u = true ->
+     exists c, find_coord (u_t u) (coords s) = Some c /\ c_ann_started c = true /\
+               is_done (c_status c) = true /\ c_status c <> Success) /\
+  (forall c, find_coord (u_t u) (coords s) = Some c -> c_status c = Success -> u_abort_begun u = false).
+Proof.
+  intros R Hu. destruct (upload_inv_reachable s R u Hu) as [A1 A2 A3 A4 [A5a A5b]].
+  split; [exact A1|]. split; [exact A2|]. split.
+  { pose proof (cnt_nonneg (c_open (u_id u)) (reqs s)). destruct (u_complete_begun u); cbn in A5b; lia. }
+  split; [exact A4|]. split.
+  - intros Hb. destruct (A3 Hb) as (c & Hc & Hst & Hns). exists c. repeat split; auto.
+    destruct (d_inv_reachable s R) as [B _ _ _ _ _ _ _]. destruct (bi_t1 _ B) as (_ & _ & _ & IA).
+    apply (IA _ c Hc). now left.
+  - intros c Hc Hs. destruct (u_abort_begun u) eqn:Eb; [exfalso|reflexivity].
+    destruct (A3 eq_refl) as (c1 & Hc1 & _ & Hns). congruence.
+Qed.
+
+(** C08: while done callbacks run, and ever after *)
+Theorem on_done_after_everything s t c :
+  reachable s0 s -> find_coord t (coords s) = Some c ->
+  c_cb_runner c <> None \/ c_ran_callbacks c <> [] ->
+  c_event c = true /\ is_done (c_status c) = true /\ c_ann_started c = true /\
+  (forall a, c_cb_runner c = Some a -> ann_phase a (c_announcers c) = Some 4 /\ c_cl_runner c <> Some a) /\
+  (* no request of the transfer other than an abort is in flight ... *)
+  (forall q, In q (reqs s) -> r_t q = t -> r_op q <> OpAbort -> r_ended q = true) /\
+  (* ... and none begins later; no task but the submission task is in or enters its main *)
+  (forall k x, find_task k (tasks s) = Some x -> k_t x = t -> k_kind x <> KSubmission ->
+               k_st x <> TReady /\ k_st x <> TMain) /\
+  c_progress_after_done c = false.
+Proof.
+  intros R Hc Hor. pose proof (d_inv_reachable s R) as D. destruct D as [B C RQ _ _ _ _ SC].
+  pose proof (coords_inv_reachable _ _ _ _ _ _ _ _ s R t c Hc) as [_ _ Icl Icb Iev Iran _].
+  destruct (bi_t1 _ B) as (_ & _ & IL & IA). destruct (IL t c Hc) as [_ _ _ L4 _ L6].
+  assert (Hst : c_ann_started c = true) by (destruct Hor; auto).
+  assert (Hcalm : calm s t) by (apply C; right; right; exists c; auto).
+  split.
+  { destruct Hor as [Hr|Hr]; [|auto]. destruct (c_cb_runner c) as [a|] eqn:Ea; [|congruence].
+    eapply Iev; [apply Icb; reflexivity|lia]. }
+  split; [apply (IA t c Hc); now left|]. split; [exact Hst|]. split.
+  { intros a Ha. pose proof (proj1 (Icb a) Ha) as Hp. split; [exact Hp|].
+    intros Hcl. apply Icl in Hcl. congruence. }
+  split.
+  { intros q Hq Ht Hop. destruct (r_ended q) eqn:Ee; [reflexivity|exfalso].
+    destruct (RQ q Hq Ee) as [_ Rt]. destruct (Rt Hop) as (x & Hx & Hxt & Hxs & Hka & Hsub).
+    destruct (Z.eq_dec (k_kind x) KSubmission) as [Hk|Hk].
+    - destruct (Hsub Hk) as [Hph Hall].
+      destruct (SC t c Hc ltac:(left; exact Hst)) as [(kf & f & Hf & Hft & Hfin & _)|[(kS & S & HS & HSt & HSk & HSp)|Q]].
+      + destruct (bi_tb _ B) as [TB _]. destruct (TB kf f Hf) as [B1 _ _ _ _ _ _ _].
+        assert (Hfk : k_kind f = KSubmission) by (eapply Hall; eauto; congruence).
+        destruct (B1 Hfk). congruence.
+      + destruct (bi_tb _ B) as [_ U].
+        assert (kS = r_actor q) by (eapply U; eauto; congruence). subst kS.
+        rewrite Hx in HS. injection HS as <-. lia.
+      + destruct Q as [_ Qr _]. exact (Qr q Hq Ht).
+    - pose proof (Hcalm _ x Hx ltac:(congruence) Hk) as Hh. rewrite Hxs in Hh. discriminate. }
+  split.
+  { intros k x Hx Ht Hk. pose proof (Hcalm k x Hx Ht Hk) as Hh.
+    split; intros E; rewrite E in Hh; discriminate. }
+  apply (progress_inv_reachable s R t c Hc).
+Qed.
+End Reach5.
+
+(** ** cleanups are run, never dropped, and precede the event on failure *)
+Lemma cleanups_never_dropped c c' :
+  cstep c c' ->
+  exists l, c_ran_cleanups c' ++ c_cleanups c' = (c_ran_cleanups c ++ c_cleanups c) ++ l.
+Proof.
+  intros H. destruct H; cbn; try (exists []; now rewrite app_nil_r).
+  - exists [id]. now rewrite app_assoc.
+  - exists []. rewrite app_nil_r, H0, <- app_assoc. reflexivity.
+  - exists []. rewrite H1, !app_nil_r. reflexivity.
+Qed.
+
+Lemma cleanups_end_inv s a t s' :
+  step s (ECleanupsEnd a t) = Some s' ->
+  exists c, find_coord t (coords s) = Some c /\ c_cl_runner c = Some a /\ c_cleanups c = [] /\
+            ann_phase a (c_announcers c) = Some 1.
+Proof.
+  intros H. cbn [step] in H. apply busy_false_of_if in H as [_ H]. sub_on_coord H.
+  destruct (c_cl_runner c) as [b|] eqn:Eb; [|discriminate].
+  destruct (ann_phase a (c_announcers c)) as [p|] eqn:Ep; [|discriminate].
+  destruct p as [|p|p]; try discriminate. destruct p; try discriminate.
+  destruct (_ && _) eqn:Eg in Hf; [|discriminate]. apply andb_prop in Eg as [E1 E2].
+  assert (b = a) by lia. subst b. exists c. repeat split; auto.
+  destruct (c_cleanups c); [reflexivity|discriminate].
+Qed.
+
+Lemma eventset_inv s a t s' :
+  step s (EEventSet a t) = Some s' ->
+  exists c p, find_coord t (coords s) = Some c /\ ann_phase a (c_announcers c) = Some p /\
+              (p = 2 \/ (p = 0 /\ c_status c = Success)).
+Proof.
+  intros H. cbn [step] in H. apply busy_false_of_if in H as [_ H]. sub_on_coord H.
+  destruct (ann_phase a (c_announcers c)) as [p|] eqn:Ep; [|discriminate].
+  destruct (_ || _) eqn:Eg in Hf; [|discriminate].
+  exists c, p. repeat split; auto. apply orb_prop in Eg as [E|E]; [left; lia|right].
+  apply andb_prop in E as [E1 E2]. apply status_eqb_eq in E2. split; [lia|exact E2].
+Qed.
+
+Section Reach6.
+Variables w_sub w_req w_io q_sub q_req q_io up down : Z.
+Let s0 := init w_sub w_req w_io q_sub q_req q_io up down.
+
+Lemma phase2_after_cl_end tr : forall s, run s0 tr = Some s ->
+  forall t c a, find_coord t (coords s) = Some c -> ann_phase a (c_announcers c) = Some 2 ->
+  In (ECleanupsEnd a t) tr.
+Proof.
+  induction tr as [|e tr IH] using rev_ind; intros s Hrun t c' a Hc' Hph.
+  - injection Hrun as <-. discriminate.
+  - rewrite run_app in Hrun. destruct (run s0 tr) as [s1|] eqn:E1; [|discriminate].
+    cbn [run] in Hrun. destruct (step s1 e) as [s2|] eqn:Es; [|discriminate]. injection Hrun as ->.
+    apply in_or_app.
+    destruct (coord_origin _ _ _ _ _ Es Hc') as [(c & Hc & Hcs)|(_ & ->)]; [|discriminate].
+    destruct (ann_phase a (c_announcers c)) as [p|] eqn:Ep.
+    + destruct (Z.eq_dec p 2) as [->|Hne]; [left; eapply IH; eauto|].
+      destruct Hcs; cbn in Hph; try congruence; revert Hph;
+        match goal with |- context [ann_set ?b _ _] => ann_cases b a Hn | |- context [ann_del ?b _] => ann_cases b a Hn end;
+        try congruence; try discriminate.
+      intros _. right. now left.
+    + destruct Hcs; cbn in Hph; try congruence; revert Hph;
+        match goal with |- context [ann_set ?b _ _] => ann_cases b a Hn | |- context [ann_del ?b _] => ann_cases b a Hn end;
+        try congruence; try discriminate.
+Qed.
+
+(** when the done event is set under a non-success status, this announcer has
+    completed a cleanup phase, which ended with every registered cleanup run *)
+Theorem cleanups_before_event_on_failure tr s a t s' c :
+  run s0 tr = Some s -> step s (EEventSet a t) = Some s' ->
+  find_coord t (coords s) = Some c -> c_status c <> Success ->
+  In (ECleanupsEnd a t) tr.
+Proof.
+  intros Hrun H Hc Hns. destruct (eventset_inv _ _ _ _ H) as (c1 & p & Hc1 & Hp & Hor).
+  rewrite Hc in Hc1. injection Hc1 as <-.
+  destruct Hor as [->|[_ Hs]]; [|contradiction]. eapply phase2_after_cl_end; eauto.
+Qed.
+End Reach6.
